@@ -498,9 +498,9 @@ func runC03(r *Run) {
 		c.Desc = "default queue name from the real config loader"
 		c03DefaultQueue(c)
 	})
-	n := r.N(150, 1500)
+	n := r.N(500, 5000)
 	r.Cases(10, n, 0, func(c *Case, rng *Rng) { c03Controlled(c, rng, true) })
 	r.Cases(10000, n, 0, func(c *Case, rng *Rng) { c03Controlled(c, rng, false) })
-	r.Cases(20000, r.N(100, 1000), 0, func(c *Case, rng *Rng) { c03Blocked(c, rng) })
-	r.Cases(30000, r.N(150, 2000), 0, func(c *Case, rng *Rng) { c03Free(c, rng) })
+	r.Cases(20000, r.N(300, 3000), 0, func(c *Case, rng *Rng) { c03Blocked(c, rng) })
+	r.Cases(30000, r.N(500, 8000), 0, func(c *Case, rng *Rng) { c03Free(c, rng) })
 }
